@@ -282,6 +282,10 @@ def run(check, an: Analysis):
                             'classified as %s' % cause, path=rules.path_lines(path, index))
         check.instance('I', 'wrapper:%s-reaches-own-handler' % cls.rsplit('.', 1)[-1].replace(
             'ext:', ''), hit, where_fn(wfn), 'handled by its specific handler')
+    # a cancellation that loses the race against the end of the task is disarmed
+    from . import c03
+    c03._check_signal_lifecycles(check, an, wrapper, rule='K',
+                                 only=lambda fn, cls: cls == CANCEL_TASK)
     # ---- typestate ----------------------------------------------------------
     _scope.check_typestate(check, an)
     check.stats.update(an.stats())
